@@ -736,3 +736,64 @@ func ruleInsertRecheck(c *Ctx, r *Report) {
 	}
 	r.analysed(rule, fmt.Sprintf("%d run-time insertions into package-level maps", n))
 }
+
+// ---------------------------------------------------------------------------
+// R-ATOM-CANONICAL (C02, C08, C16; added with fix F33): an atom has one representation per name. A
+// one-character name is represented by the character's rune - that is what char_code/2, atom_chars/2,
+// get_char/2 and the string encodings of lists produce directly (Atom(r)) - so NewAtom must take its
+// one-character fast path for EVERY valid character, U+FFFD included. utf8 reports a decoding error as
+// (U+FFFD, size 1): a test `r != utf8.RuneError` alone also refuses the character U+FFFD (size 3), whose name
+// then gets a second, interned representation that compares equal (==) and does not unify.
+// Checked: the fast-path return of NewAtom stays reachable when the edges "r != RuneError is true" are cut.
+
+func ruleAtomCanonical(c *Ctx, r *Report) {
+	const rule = "R-ATOM-CANONICAL"
+	fn := c.fn("NewAtom")
+	if fn == nil {
+		r.undecided(rule, "anchor:NewAtom", "-", "locate NewAtom", "not found")
+		return
+	}
+	desc := "NewAtom represents every one-character name, U+FFFD included, by the character's rune"
+	// the fast path: the conversion of the decoded rune into an Atom (with a deferred unlock the function has a
+	// single shared return, so the conversion's own block is the target)
+	var fast ssa.Instruction
+	eachInstr(fn, func(in ssa.Instruction) {
+		cv, ok := in.(*ssa.Convert)
+		if !ok || !isEngNamed(cv.Type(), "Atom") {
+			return
+		}
+		if b, ok := cv.X.Type().Underlying().(*types.Basic); ok && b.Kind() == types.Int32 {
+			fast = in
+		}
+	})
+	key := fname(fn) + "/one-character-path"
+	if fast == nil {
+		r.bad(rule, key, c.Pos(fn.Pos()), desc, "NewAtom has no path that returns the rune of a one-character name: every such name gets an interned representation next to the runes the built-ins produce")
+		return
+	}
+	isRuneErrorTest := func(cond ssa.Value) (neqTrueIdx int, ok bool) {
+		bo, isBo := cond.(*ssa.BinOp)
+		if !isBo || (bo.Op != token.EQL && bo.Op != token.NEQ) {
+			return 0, false
+		}
+		for _, side := range []ssa.Value{bo.X, bo.Y} {
+			if k, isK := constInt(side); isK && k == 0xFFFD {
+				if bo.Op == token.NEQ {
+					return 0, true
+				}
+				return 1, true
+			}
+		}
+		return 0, false
+	}
+	reach := reachableAvoiding(fn, fast.Block(), func(from *ssa.BasicBlock, i int, cond ssa.Value) bool {
+		idx, ok := isRuneErrorTest(cond)
+		return ok && i == idx // the edge on which the rune is known to differ from U+FFFD
+	})
+	if reach {
+		r.ok(rule, key, c.at(fast), desc, "the one-character return is reachable for the rune U+FFFD (a size test tells the character from a decoding error)", true)
+	} else {
+		r.bad(rule, key, c.at(fast), desc, "the one-character return is reached only when the rune differs from U+FFFD: the character U+FFFD gets an interned second representation that is == to Atom(0xFFFD) but does not unify with it")
+	}
+	r.analysed(rule, fname(fn))
+}
